@@ -212,6 +212,52 @@ func c16Body(r *Report, known []Finding) {
 			}
 		}
 		hays = append(hays, nil, []byte("."), bytes.Repeat([]byte("."), 100))
+		// the (?m)^ wrapper (prefilter.WrapLineAnchor: a candidate counts only at a line start): against its definition, on lines built
+		// from the literals — a literal directly behind another one, behind other bytes, behind a newline — from EVERY start offset
+		// (a search resumed right behind a previous match starts in the middle of a line)
+		if len(impls) > 0 && si%2 == 0 {
+			base := impls[0]
+			w := prefilter.WrapLineAnchor(base.pf)
+			tw := r.Tie("WrapLineAnchor(" + base.name + ").Find == least literal occurrence at a line start, from every start offset")
+			var lh [][]byte
+			for k := 0; k < 6; k++ {
+				a, b, c := lits[rng.Intn(len(lits))], lits[rng.Intn(len(lits))], lits[rng.Intn(len(lits))]
+				lh = append(lh, append(append(append(append([]byte(nil), a...), b...), '\n'), c...),
+					append(append(append(append([]byte("x"), a...), '\n'), b...), c...),
+					append(append(append(append([]byte(nil), a...), "\n\n"...), b...), append([]byte(" "), c...)...),
+					append(append(append([]byte("\n"), a...), a...), a...))
+			}
+			for _, h := range lh {
+				for st := 0; st <= len(h); st++ {
+					want := -1
+					for p := st; p <= len(h); p++ {
+						if (p == 0 || h[p-1] == '\n') && naiveMulti(lits, h[:min(len(h), p+64)], p) == p {
+							want = p
+							break
+						}
+					}
+					got := -2
+					if res := guard(5*time.Second, func() string { got = w.Find(h, st); return "" }); res != "" {
+						r.Violate(fmt.Sprintf("WrapLineAnchor(%s).Find: %s lits=%q h=%q start=%d", base.name, res, lits, h, st), map[string]any{"impl": base.name, "haystack_hex": hexOf(h), "start": st, "result": res}, false)
+						continue
+					}
+					tw.Cases++
+					r.Case(fmt.Sprintf("la\x00%d\x00%s\x00%d", si, h, st), want >= 0)
+					if got != want {
+						tw.Disagreements++
+						// the wrapper inherits what its inner prefilter does: a known finding about the inner one covers it
+						attrs := map[string]string{"impl": base.name, "kind": map[bool]string{true: "skips", false: "differs"}[got == -1 || (want >= 0 && got > want)]}
+						if f := matchKnown(known, "C16", attrs); f != nil {
+							r.Known(f, map[string]string{"impl": "WrapLineAnchor(" + base.name + ")", "haystack_hex": hexOf(h), "start": fmt.Sprint(st)})
+							break
+						}
+						r.Violate(fmt.Sprintf("WrapLineAnchor(%s).Find(%q, %d) = %d, definition = %d; literals %q", base.name, h, st, got, want, lits),
+							map[string]any{"impl": "WrapLineAnchor(" + base.name + ")", "literals": fmt.Sprintf("%q", lits), "haystack_hex": hexOf(h), "start": st, "got": got, "want": want}, false)
+						break
+					}
+				}
+			}
+		}
 		for _, h := range hays {
 			starts := []int{0, 1, len(h) / 2, len(h) - 1, len(h)}
 			for _, st := range starts {
